@@ -96,7 +96,7 @@ Proof.
     change (2 ^ 7)%Z with 128%Z in *.
     pose proof (Bminus_correct 24 128 Hprec32 Hmax32 mode_NE _ _ Fd F1) as C.
     rewrite Bd, B1 in C.
-    assert (E : IZR x / 128 - 1 = F2R (Float radix2 (x - 128) (-7))).
+    assert (E : IZR x / 128 - 1 = F2R (Float radix2 (x - 128) (Z.opp 7))).
     { rewrite <- (div_as_F2R (x - 128) 7) by lia. change (2 ^ 7)%Z with 128%Z. rewrite minus_IZR. field. }
     rewrite E in C.
     rewrite round_generic in C; [|apply valid_rnd_N|apply format32_dyadic; lia].
